@@ -50,6 +50,38 @@ type xOp struct {
 	// parity) | "int" (200 / 500). Filter (query): only entries whose status is the string "ok".
 	TagKind string `json:"tag_kind,omitempty"`
 	Filter  bool   `json:"filter,omitempty"`
+	// Arr (write): every element also carries a string-array tag "labels": ["a|b","c"] for even payload ids, ["z"] for odd ones.
+	// ArrFilter (query): only entries whose labels are exactly ["a|b","c"].
+	Arr       bool `json:"arr,omitempty"`
+	ArrFilter bool `json:"arr_filter,omitempty"`
+}
+
+// xLabelsAB is the tag filter of an array-filtered query: labels is exactly ["a|b", "c"].
+type xLabelsAB struct{}
+
+func (xLabelsAB) Match(tags []*modelv1.Tag) (bool, error) {
+	for _, tag := range tags {
+		if tag.Key == "labels" && tag.Value.GetStrArray() != nil {
+			v := tag.Value.GetStrArray().GetValue()
+			if len(v) == 2 && v[0] == "a|b" && v[1] == "c" {
+				return true, nil
+			}
+		}
+	}
+	return false, nil
+}
+
+func (xLabelsAB) GetDecoder() model.TagValueDecoder {
+	return func(valueType pbv1.ValueType, value []byte, valueArr [][]byte) *modelv1.TagValue {
+		if valueType != pbv1.ValueTypeStrArr || valueArr == nil {
+			return pbv1.NullTagValue
+		}
+		var out []string
+		for _, v := range valueArr {
+			out = append(out, string(v))
+		}
+		return &modelv1.TagValue{Value: &modelv1.TagValue_StrArray{StrArray: &modelv1.StrArray{Value: out}}}
+	}
 }
 
 // xStatusOK is the tag filter of a filtered query: status is a string and equals "ok".
@@ -98,6 +130,7 @@ var sidxLogOnce sync.Once
 type xEnv struct {
 	phase  string
 	okStr  map[int]bool // payload id -> the element carries the string status "ok"
+	abArr  map[int]bool // payload id -> the element carries the labels ["a|b","c"]
 	s      SIDX
 	dir    string
 	nextID uint64
@@ -110,6 +143,7 @@ type xEnv struct {
 		splitWindows                    int
 		pinAcross                       bool
 		filtered, strTag, intTag        bool
+		arrTag                          bool
 		multiPart, rangeCut, afterMerge bool
 	}
 }
@@ -144,6 +178,12 @@ func (e *xEnv) query(op xOp, allSids []int) (qerr error) {
 		req.TagProjection = []model.TagProjection{{Names: []string{"status"}}}
 		e.stats.filtered = true
 	}
+	if op.ArrFilter {
+		req.TagFilter = xLabelsAB{}
+		req.SchemaTagTypes = map[string]pbv1.ValueType{"labels": pbv1.ValueTypeStrArr}
+		req.TagProjection = []model.TagProjection{{Names: []string{"labels"}}}
+		e.stats.filtered = true
+	}
 	for _, s := range sids {
 		req.SeriesIDs = append(req.SeriesIDs, common.SeriesID(s))
 	}
@@ -162,6 +202,9 @@ func (e *xEnv) query(op xOp, allSids []int) (qerr error) {
 			continue
 		}
 		if op.Filter && !e.okStr[m.D] {
+			continue
+		}
+		if op.ArrFilter && !e.abArr[m.D] {
 			continue
 		}
 		want = append(want, m)
@@ -304,7 +347,7 @@ func runSidx(x *verifkit.Ctx, c xCase) (*xEnv, error) {
 		return nil, err
 	}
 	defer s.Close()
-	e := &xEnv{s: s, dir: dir, nextID: 1, x: x, okStr: map[int]bool{}}
+	e := &xEnv{s: s, dir: dir, nextID: 1, x: x, okStr: map[int]bool{}, abArr: map[int]bool{}}
 	sidSet := map[int]bool{}
 	for _, op := range c.Ops {
 		for _, el := range op.Elems {
@@ -370,6 +413,9 @@ func runSidx(x *verifkit.Ctx, c xCase) (*xEnv, error) {
 		if e.stats.strTag || e.stats.intTag {
 			qs = append(qs, xOp{Kind: "query", Filter: true})
 		}
+		if e.stats.arrTag {
+			qs = append(qs, xOp{Kind: "query", ArrFilter: true}, xOp{Kind: "query", ArrFilter: true, Desc: true})
+		}
 		// the scan interface (used by maintenance tools) serves every entry as well
 		if err := e.scanAll(fmt.Sprintf("full scan after op %d", i), e.model); err != nil {
 			return err
@@ -409,6 +455,15 @@ func runSidx(x *verifkit.Ctx, c xCase) (*xEnv, error) {
 					}
 					wr.Tags = []Tag{{Name: "status", Value: convert.Int64ToBytes(v), ValueType: pbv1.ValueTypeInt64}}
 					e.stats.intTag = true
+				}
+				if op.Arr {
+					if el.D%2 == 0 {
+						wr.Tags = append(wr.Tags, Tag{Name: "labels", ValueArr: [][]byte{[]byte("a|b"), []byte("c")}, ValueType: pbv1.ValueTypeStrArr})
+						e.abArr[el.D] = true
+					} else {
+						wr.Tags = append(wr.Tags, Tag{Name: "labels", ValueArr: [][]byte{[]byte("z")}, ValueType: pbv1.ValueTypeStrArr})
+					}
+					e.stats.arrTag = true
 				}
 				reqs = append(reqs, wr)
 			}
@@ -545,9 +600,11 @@ func genSidxCase(t *rapid.T) xCase {
 	nb := rapid.IntRange(1, 6).Draw(t, "batches")
 	// tag mode: no tags | a string tag in every batch | the tag's type changes between batches (the parts conflict when merged)
 	tagMode := rapid.SampledFrom([]string{"none", "str", "mixed", "mixed"}).Draw(t, "tagmode")
+	arrMode := rapid.IntRange(0, 2).Draw(t, "arrmode") == 0
 	for b := 0; b < nb; b++ {
 		n := rapid.IntRange(1, 25).Draw(t, "n")
 		op := xOp{Kind: "write"}
+		op.Arr = arrMode
 		switch tagMode {
 		case "str":
 			op.TagKind = "str"
@@ -648,6 +705,7 @@ func sidxSpec(property string) verifkit.Spec[xCase] {
 			x.LabelIf(e.stats.rangeCut, "key range cuts the result")
 			x.LabelIf(e.stats.afterMerge, "query after merge")
 			x.LabelIf(e.stats.filtered, "tag-filtered query")
+			x.LabelIf(e.stats.arrTag, "string-array tag with escaped elements")
 			x.LabelIf(e.stats.strTag && e.stats.intTag, "tag with conflicting types")
 			x.LabelIf(e.stats.strTag && e.stats.intTag && e.stats.merges >= 2, "conflicting types merged in >= 2 rounds")
 			if (e.stats.multiPart && e.stats.rangeCut) || e.stats.afterMerge {
